@@ -238,6 +238,32 @@ Definition probe_soundb (p : params) (im : vstate) (rq : request) (pq : vec) (r 
                       | None => false
                       end) r.
 
+(** the completeness half for IVFPQ under a partial probe, with each score recomputed from the
+    implementation's own codes, codebooks and centroids: a cell whose centroid is STRICTLY nearer (in the
+    index's own metric) than the p-th nearest is certainly among the probed ones, so none of its eligible
+    live vectors may be missing unless k better-or-equal hits fill the answer (no autocut, ids stored once) *)
+Definition partial_code_complete (p : params) (live : list (Z * vec)) (im : vstate) (rq : request) (pq : vec)
+           (r : list (Z * Z)) : bool :=
+  let cents := st_centroids im in
+  let np := r_nprobes rq in
+  if negb ((0 <? np) && (np <? Z.of_nat (length cents)) && (r_cutoff rq =? -1) && nodupz (map fst live)) then true
+  else
+    let cdk := map (fun c => F32.key (F32.canon (dist (p_metric p) pq c))) cents in
+    let dp := nth (Z.to_nat (np - 1)) (isort (fun x => x) cdk) 0 in
+    let fullk := (0 <? r_k rq) && (Z.of_nat (length r) =? r_k rq) in
+    let lastk := F32.key (snd (last r (0, 0))) in
+    forallb (fun lv =>
+       if (match r_docids rq with [] => true | ds => memz (fst lv) ds end)
+       then match find_entry im (fst lv) with
+            | Some (li, e) =>
+                if nth (Z.to_nat li) cdk 0 <? dp
+                then let d := F32.canon (pq_kind_score p im pq li e) in
+                     negb (thr_ok rq d) || memz (fst lv) (map fst r) || (fullk && (lastk <=? F32.key d))
+                else true
+            | None => true
+            end
+       else true) live.
+
 (** C02: a search from stored node ids is equivalent to the search with those nodes' stored vectors.
     Both answers come from the implementation; they must carry the same scores in the same order, and
     the same (id, score) pairs except inside the group of entries tied with the last one (where the
@@ -332,7 +358,7 @@ Definition step_check (p : params) (h : hstate) (o : vop) : hstate + list Z :=
                         | Some pq, Some im, KIVF => probe_specb p (h_live h) im rq pq out
                         | Some pq, Some im, KPQ => complete_code_results p (h_live h) im rq pq out
                         | Some pq, Some im, KIVFPQ =>
-                            probe_soundb p im rq pq out &&
+                            probe_soundb p im rq pq out && partial_code_complete p (h_live h) im rq pq out &&
                             (negb ((r_nprobes rq <=? 0) || (p_nlist p <=? r_nprobes rq)) ||
                              complete_code_results p (h_live h) im rq pq out)
                         | _, _, _ => true
